@@ -74,6 +74,7 @@ def rule_merge_target(ctx):
     fi = ctx.repo.find_function(f"{F_QUAL}::{CLS}.fit")
     R = "R-merge-target"
     defs = single_defs(fi.node)
+    ldefs = {k: v for k, v in defs.items() if k != "x_copy"}  # look through local aliases, keep the frame's name
     # levels visited in the given order
     loops = [n for n in walk_no_nested(fi.node) if isinstance(n, ast.For) and "chained_orders" in unparse(n.iter)]
     ok = len(loops) == 1 and unparse(loops[0].iter) == "self.chained_orders" and isinstance(loops[0].target, ast.Name)
@@ -131,19 +132,20 @@ def rule_merge_target(ctx):
             and unparse(masks.generators[0].iter) == "values_to_group"
             and isinstance(masks.elt, ast.Compare) and isinstance(masks.elt.ops[0], ast.Eq)
             and unparse(masks.generators[0].target) in (unparse(masks.elt.left), unparse(masks.elt.comparators[0]))
+            and "x_copy[feature]" in (unparse(inline(fi.node, masks.elt.left, defs=ldefs)), unparse(inline(fi.node, masks.elt.comparators[0], defs=ldefs)))
             and unparse(tg) == "groups_value"
-            and kwarg(sel[0], "default") is not None and "x_copy[feature]" in unparse(kwarg(sel[0], "default"))
+            and kwarg(sel[0], "default") is not None and "x_copy[feature]" in unparse(inline(fi.node, kwarg(sel[0], "default"), defs=ldefs))
         )
     ctx.ob(R, construct(fi, "mask k and target k belong to the same value (same iterable, no filter)"), ok, loc(fi, sel[0] if sel else None))
     # recorded in values_orders with the same pairs, in (discarded, kept) order
-    grp = [c for c in calls(fi, "group") if "values_orders" in unparse(c.func.value)]
+    grp = [c for c in calls(fi, "group") if "values_orders" in unparse(inline(fi.node, c.func.value, defs=ldefs))]
     ok = False
     if len(grp) == 1:
         cfg = cfg_of(ctx, fi)
         lp = [l for l in cfg.enclosing_loops(grp[0]) if isinstance(l, ast.For)]
         if lp and unparse(lp[0].iter) == "zip(values_to_group, groups_value)" and isinstance(lp[0].target, ast.Tuple):
             a, b = [unparse(x) for x in lp[0].target.elts]
-            ok = [unparse(x) for x in grp[0].args] == [a, b] and "feature" in unparse(grp[0].func.value)
+            ok = [unparse(x) for x in grp[0].args] == [a, b] and "feature" in unparse(inline(fi.node, grp[0].func.value, defs=ldefs))
     ctx.ob(R, construct(fi, "values_orders records group(discarded value, its level group)"), ok, loc(fi, grp[0] if grp else None))
 
 
